@@ -242,9 +242,12 @@ func (f *Frame) checkPanicExit(e Exit) {
 	con := f.con
 	name := shortFn(f.fn)
 	tag := f.exitSite(e)
-	for _, h := range con.Hints["panic"] {
-		// 'at panic assert e': holds whenever the function panics (state of the panic exit)
-		f.applyHint(h, e.Cond, e.St, "panic@"+tag)
+	if strings.HasPrefix(e.Desc, "explicit panic") {
+		for _, h := range con.Hints["panic"] {
+			// 'at panic assert e': holds whenever one of the function's own panic statements (or one of an
+			// inlined callee) is reached; panics propagated from contracted callees are described by those contracts
+			f.applyHint(h, e.Cond, e.St, "panic@"+tag)
+		}
 	}
 	if len(con.PanicsWith) > 0 {
 		penv := f.envPost(e.St, nil)
